@@ -67,8 +67,13 @@ def task(W, payload):
             bump(out, "traced:" + solver)
             if params: out["cases"].append(h + ":" + solver)
         except BaseException as e:
-            name = type(e).__name__
-            if "Concretization" in name or "TracerBool" in name or "TracerInteger" in name or "TracerArrayConversion" in name or "NonConcreteBooleanIndex" in name:
+            # the compute graph wraps errors raised inside a node (GraphRunError, a BaseException): look through the chain
+            chain = []; x = e
+            while x is not None and len(chain) < 6:
+                chain.append(type(x).__name__); x = x.__cause__ or x.__context__
+            name = "/".join(chain)
+            text = name + " " + str(e)[:2000]
+            if any(k in text for k in ("Concretization", "TracerBool", "TracerInteger", "TracerArrayConversion", "NonConcreteBooleanIndex")):
                 fail(out, f"executing the model needs the concrete value of a run-time quantity ({name}) with solver {solver}", "c19", payload,
                      error=str(e)[:600], solver=solver, program=prog["build"], params=prog["params"])
             else:
@@ -104,8 +109,11 @@ def task(W, payload):
                              params=p2, built_with=params, program=prog["build"])
                         break
     except BaseException as e:
-        name = type(e).__name__
-        if "Concretization" in name or "Tracer" in name:
+        chain = []; x = e
+        while x is not None and len(chain) < 6:
+            chain.append(type(x).__name__); x = x.__cause__ or x.__context__
+        name = "/".join(chain)
+        if any(k in (name + " " + str(e)[:2000]) for k in ("Concretization", "TracerBool", "TracerInteger", "TracerArrayConversion", "NonConcreteBooleanIndex")):
             fail(out, f"jit-compiling the runner fails ({name})", "c19", payload, error=str(e)[:600], program=prog["build"], params=prog["params"])
         else:
             bump(out, "jit_other_error:" + name)
